@@ -145,6 +145,10 @@ func init() {
 				Name: "side-effects",
 				Rule: "C01 type x value space plus nocopy string/binary types; values built with spare slice capacity holding live sentinel elements; distinct by (type index, canonical bytes)",
 				Body: func(c *explore.C) { c16Body(c, ff, tier) },
+			}, {
+				Name: "large-retained-bytes",
+				Rule: "a value retaining 1 MiB - 64, 1 MiB + 64 and 3 MiB of unknown-field bytes, at top level and in a nested struct: the same side-effect oracle",
+				Body: c16Large,
 			}}
 		},
 	})
@@ -322,7 +326,35 @@ func nocopyFamily() *family {
 }
 
 func c16Body(c *explore.C, ff *flatFamily, tier universe.Tier) {
-	cc := pickCodecCase(c, ff, tier)
+	c16Run(c, pickCodecCase(c, ff, tier))
+}
+
+// c16Large: values whose retained unknown-field bytes are around and beyond 1 MiB (a proxy forwarding a
+// payload it has no field for), at top level and in a nested struct: size thresholds in clean-up code.
+func c16Large(c *explore.C) {
+	sizes := []int{1<<20 - 64, 1<<20 + 64, 3 << 20}
+	n := sizes[c.Choose(len(sizes), explore.Data, "retained-bytes")]
+	nested := c.Bool(explore.Data, "nested")
+	harness.Cur.Crumb(c.Choices())
+	unk := make([]byte, 0, n+16)
+	unk = append(unk, ref.WString, 0x70, 0x01, byte(n>>24), byte(n>>16), byte(n>>8), byte(n))
+	for i := 0; i < n; i++ {
+		unk = append(unk, byte('a'+i%23))
+	}
+	leaf := universe.LeafHolder()
+	lv := ref.ZeroStruct(leaf)
+	lv.F[0] = ref.Int(ref.KI16, 5)
+	s := &ref.Struct{Unknown: true, Fields: []*ref.Field{{ID: 1, Req: ref.ReqDefault, Type: universe.Sc(ref.KI32)}, {ID: 2, Req: ref.ReqOptional, Type: universe.StPtr(leaf)}}}
+	v := &ref.Val{K: ref.KStruct, F: []*ref.Val{ref.Int(ref.KI32, 7), lv}}
+	if nested {
+		lv.Unk = unk
+	} else {
+		v.Unk = unk
+	}
+	c16Run(c, &codecCase{ti: 1 << 20, vi: n, fam: "large-retained-bytes", s: s, v: v})
+}
+
+func c16Run(c *explore.C, cc *codecCase) {
 	s, v := cc.s, cc.v
 	hooks.Reset()
 	src := universe.NewSpare(s, v)
